@@ -208,8 +208,20 @@ fn sibling_walk(h: &Hdr<'_>, ab: &Abb, budget: &mut u64) -> Result<Vec<(u64, Opt
     Ok(out)
 }
 
+/// Does a partial traversal descend into the children of the entry at `off`?
+/// mode 0: always; mode 1: never (only the root's direct children are listed);
+/// mode 2: only for entries at even offsets.  Skipping a node's children is what makes
+/// `EntriesTree::next` use its DW_AT_sibling fast path / depth-based skipping.
+fn descend(mode: u8, off: u64) -> bool {
+    match mode {
+        0 => true,
+        1 => false,
+        _ => off % 2 == 0,
+    }
+}
+
 /// path 5
-fn walk_tree(node: gimli::EntriesTreeNode<'_, '_, Rd<'_>>, depth: i64, parent: Option<u64>, out: &mut Vec<(Ent, Option<u64>)>) -> gimli::Result<()> {
+fn walk_tree(node: gimli::EntriesTreeNode<'_, '_, Rd<'_>>, depth: i64, parent: Option<u64>, mode: u8, out: &mut Vec<(Ent, Option<u64>)>) -> gimli::Result<()> {
     let mut x = ent_of(node.entry());
     let reported_depth = x.depth;
     // the tree position is what is judged; the entry's own depth field must agree with it
@@ -219,9 +231,12 @@ fn walk_tree(node: gimli::EntriesTreeNode<'_, '_, Rd<'_>>, depth: i64, parent: O
     }
     let off = x.off;
     out.push((x, parent));
+    if depth > 0 && !descend(mode, off) {
+        return Ok(());
+    }
     let mut ch = node.children();
     while let Some(c) = ch.next()? {
-        walk_tree(c, depth + 1, Some(off), out)?;
+        walk_tree(c, depth + 1, Some(off), mode, out)?;
     }
     // an exhausted child iterator stays exhausted
     if ch.next()?.is_some() {
@@ -230,18 +245,20 @@ fn walk_tree(node: gimli::EntriesTreeNode<'_, '_, Rd<'_>>, depth: i64, parent: O
     Ok(())
 }
 
-fn tree_seq(mut t: gimli::EntriesTree<'_, Rd<'_>>) -> Result<Vec<(Ent, Option<u64>)>, String> {
-    let mut out = vec![];
-    let root = e2s(t.root())?;
-    e2s(walk_tree(root, 0, None, &mut out))?;
-    // root() can be taken again and reports the same tree
-    let mut again = vec![];
-    let root = e2s(t.root())?;
-    e2s(walk_tree(root, 0, None, &mut again))?;
-    if again != out {
+/// Full traversal (twice: `root()` can be taken again), then the two partial traversals.
+fn tree_seq(mut t: gimli::EntriesTree<'_, Rd<'_>>) -> Result<Vec<Vec<(Ent, Option<u64>)>>, String> {
+    let mut all = vec![];
+    for mode in [0u8, 0, 1, 2] {
+        let mut out = vec![];
+        let root = e2s(t.root())?;
+        e2s(walk_tree(root, 0, None, mode, &mut out))?;
+        all.push(out);
+    }
+    if all[0] != all[1] {
         return Err("second root() traversal differs from the first".into());
     }
-    Ok(out)
+    all.remove(1);
+    Ok(all)
 }
 
 #[derive(Clone, Debug, PartialEq, Eq)]
@@ -345,7 +362,7 @@ pub struct UnitObs {
     pub dfs: Result<(Vec<Ent>, bool), String>,
     pub entries: Result<(Vec<Ent>, bool), String>,
     pub walk: Result<Vec<(u64, Option<u64>, usize)>, String>,
-    pub tree: Option<Result<Vec<(Ent, Option<u64>)>, String>>,
+    pub tree: Option<Result<Vec<Vec<(Ent, Option<u64>)>>, String>>,
     pub dwarf_unit: Option<Result<(Vec<Ent>, Vec<Ent>), String>>,
     /// per start item index
     pub pos: Vec<PosObs>,
@@ -359,7 +376,7 @@ pub struct PosObs {
     pub entry: Result<Ent, String>,
     pub dfs: Result<(Vec<Ent>, bool), String>,
     pub siblings: Result<(Vec<Ent>, bool), String>,
-    pub tree: Option<Result<Vec<(Ent, Option<u64>)>, String>>,
+    pub tree: Option<Result<Vec<Vec<(Ent, Option<u64>)>>, String>>,
     pub raw: Result<(Vec<Ent>, bool), String>,
 }
 
@@ -929,15 +946,19 @@ fn cmp_seq(ctx: &mut Ctx, sig: &str, exp: &[Ent], got: &Result<(Vec<Ent>, bool),
     }
 }
 
-fn cmp_tree(ctx: &mut Ctx, sig: &str, exp: &[(Ent, Option<u64>)], got: &Result<Vec<(Ent, Option<u64>)>, String>, strict: bool, input: &dyn Fn() -> Value) {
+fn cmp_tree(ctx: &mut Ctx, sig: &str, items: &[ItemModel], root: usize, par: &[Option<usize>], got: &Result<Vec<Vec<(Ent, Option<u64>)>>, String>, strict: bool, input: &dyn Fn() -> Value) {
     match got {
-        Ok(g) => {
-            if g.as_slice() != exp {
-                if strict {
-                    let k = exp.iter().zip(g.iter()).position(|(a, b)| a != b).unwrap_or(exp.len().min(g.len()));
-                    ctx.check_eq(sig, &(exp.len(), k, exp.get(k)), &(g.len(), k, g.get(k)), input);
-                } else {
-                    ctx.obs("secondary.mismatch.wrong_sibling_on_childless_followed");
+        Ok(gs) => {
+            for (mode, g) in [0u8, 1, 2].iter().zip(gs.iter()) {
+                let exp = tree_model(items, root, par, *mode);
+                if g.as_slice() != exp.as_slice() {
+                    if strict {
+                        let k = exp.iter().zip(g.iter()).position(|(a, b)| a != b).unwrap_or(exp.len().min(g.len()));
+                        let name = ["full", "direct_children", "partial"][*mode as usize];
+                        ctx.check_eq(&format!("{sig}.{name}"), &(exp.len(), k, exp.get(k)), &(g.len(), k, g.get(k)), input);
+                    } else {
+                        ctx.obs("secondary.mismatch.wrong_sibling_on_childless_followed");
+                    }
                 }
             }
         }
@@ -951,15 +972,28 @@ fn cmp_tree(ctx: &mut Ctx, sig: &str, exp: &[(Ent, Option<u64>)], got: &Result<V
     }
 }
 
-fn tree_model(items: &[ItemModel], root: usize, par: &[Option<usize>]) -> Vec<(Ent, Option<u64>)> {
+fn tree_model(items: &[ItemModel], root: usize, par: &[Option<usize>], mode: u8) -> Vec<(Ent, Option<u64>)> {
     let rel = items[root].depth;
-    subtree(items, root)
-        .into_iter()
-        .map(|j| {
-            let p = if j == root { None } else { par[j].map(|p| items[p].offset) };
-            (ent_model(&items[j], rel), p)
-        })
-        .collect()
+    // pruned[j]: j lies below an entry whose children the traversal does not visit
+    let mut pruned: BTreeMap<usize, bool> = BTreeMap::new();
+    let mut out = vec![];
+    for j in subtree(items, root) {
+        if j == root {
+            pruned.insert(j, false);
+            out.push((ent_model(&items[j], rel), None));
+            continue;
+        }
+        let p = par[j];
+        let hidden = match p {
+            Some(p) => pruned.get(&p).copied().unwrap_or(true) || (p != root && !descend(mode, items[p].offset)),
+            None => true,
+        };
+        pruned.insert(j, hidden);
+        if !hidden {
+            out.push((ent_model(&items[j], rel), p.map(|p| items[p].offset)));
+        }
+    }
+    out
 }
 
 /// Judge one built case.  `strict[u]` is false for units whose sibling attributes are wrong in a
@@ -1060,7 +1094,7 @@ fn judge(ctx: &mut Ctx, b: &Built, plan: &Plan, obs: &Result<Vec<UnitObs>, Strin
         if let Some(t) = &uo.tree {
             ctx.obs("path.tree");
             if !items[0].null {
-                cmp_tree(ctx, "tree.children", &tree_model(items, 0, &par), t, strict, &input);
+                cmp_tree(ctx, "tree.children", items, 0, &par, t, strict, &input);
             }
         }
         if let Some(d) = &uo.dwarf_unit {
@@ -1102,7 +1136,7 @@ fn judge(ctx: &mut Ctx, b: &Built, plan: &Plan, obs: &Result<Vec<UnitObs>, Strin
             cmp_seq(ctx, "entries_at_offset.next_sibling", &sl, &p.siblings, strict, &input);
             if let Some(t) = &p.tree {
                 ctx.obs("path.pos.tree");
-                cmp_tree(ctx, "entries_tree.at_offset", &tree_model(items, i, &par), t, strict, &input);
+                cmp_tree(ctx, "entries_tree.at_offset", items, i, &par, t, strict, &input);
             }
         }
         for ok in &uo.entry_at_null_err {
